@@ -367,6 +367,9 @@ class IR:
         return list(reversed(p))
 
 
+NORETURN = ('__assert_fail', 'abort', 'exit', '_Exit', 'std::terminate', 'std::abort', '__cxa_throw')
+
+
 class CFG:
     def __init__(self, f):
         self.f = f
@@ -429,8 +432,27 @@ class CFG:
     def pdom(self):
         """post-dominators (on the reversed edge-split graph, from the exit block)"""
         if self._pdom is None:
+            # "on every path to a normal return": a block that ends in a call of a noreturn function (assert failure,
+            # abort) is not an exit — with -UNDEBUG every assert() would otherwise open a path that by-passes everything
+            abn = set()
+            for i, b in self.blocks.items():
+                if self.exit in [x for x in b['succ'] if x is not None] and \
+                        any(x.get('callee') in NORETURN for st in b['stmts'] for x in walk(st['s'])):
+                    abn.add(i)
+            # assert(): `cond ? (void)0 : __assert_fail(..)` — the failing arm is an empty block that falls into the exit
+            conds = [x for i, b in self.blocks.items() for st in b['stmts'] for x in walk(st['s']) if x.get('k') == 'ConditionalOperator']
+            for i, b in self.blocks.items():
+                if b.get('term') == 'ConditionalOperator' and 'cond' in b and len(b['succ']) == 2:
+                    for x in conds:
+                        if x.get('ln') == b['cond'].get('ln') and show(x.get('cnd')) == show(b['cond']):
+                            for k, arm in ((0, 'l'), (1, 'r')):
+                                t = b['succ'][k]
+                                if t is not None and any(y.get('callee') in NORETURN for y in walk(x.get(arm))) and self.blocks[t]['succ'] == [self.exit]:
+                                    abn.add(t)
             rg = collections.defaultdict(list)
             for a, vs in self.g.items():
+                if a[0] == 'b' and a[1] in abn:
+                    continue
                 for v in vs:
                     rg[v].append(a)
             self._pdom = self._dominators(rg, ('b', self.exit))
